@@ -954,30 +954,38 @@ func (n *node) Kill(pid gen.PID) error {
 		return gen.ErrNodeTerminated
 	}
 
+	lib.VerifPoint("kill.load", pid)
 	value, loaded := n.processes.Load(pid)
 	if loaded == false {
 		return gen.ErrProcessUnknown
 	}
 
 	p := value.(*process)
+	lib.VerifPoint("kill.swapZ", p)
 	state := atomic.SwapInt32(&p.state, int32(gen.ProcessStateZombee))
 	switch state {
 	case int32(gen.ProcessStateWaitResponse), int32(gen.ProcessStateRunning):
 		// do not unregister process until its goroutine stopped
 		return nil
 	case int32(gen.ProcessStateTerminated):
+		lib.VerifPoint("kill.storeT", p)
 		atomic.StoreInt32(&p.state, int32(gen.ProcessStateTerminated))
 		return nil
 	}
 
+	lib.VerifPoint("kill.swapT", p)
 	old := atomic.SwapInt32(&p.state, int32(gen.ProcessStateTerminated))
 	if old == int32(gen.ProcessStateTerminated) {
 		return nil
 	}
 	// unregister process and stuff belonging to it
+	lib.VerifPoint("kill.unreg", p)
 	n.unregisterProcess(p, gen.TerminateReasonKill)
 
+	lib.VerifPoint("kill.spawn", p)
 	go func() {
+		lib.VerifPoint("kill.term.start", p)
+		defer lib.VerifPoint("kill.term.exit", p)
 		if lib.Recover() {
 			defer func() {
 				if rcv := recover(); rcv != nil {
@@ -1690,6 +1698,7 @@ func (n *node) spawn(factory gen.ProcessFactory, options gen.ProcessOptionsExtra
 	}
 	p.log.setSource(logSource)
 
+	lib.VerifPoint("spawn.init", p)
 	if err := behavior.ProcessInit(p, options.Args...); err != nil {
 		n.names.Delete(p.name)
 		// make sure to notify children that might have been spawned
@@ -1731,7 +1740,9 @@ func (n *node) spawn(factory gen.ProcessFactory, options gen.ProcessOptionsExtra
 	}
 
 	// register process and switch it to the sleep state
+	lib.VerifPoint("spawn.sleep", p)
 	p.state = int32(gen.ProcessStateSleep)
+	lib.VerifPoint("spawn.store", p)
 	n.processes.Store(p.pid, p)
 
 	// do not count system app processes
@@ -1747,6 +1758,7 @@ func (n *node) spawn(factory gen.ProcessFactory, options gen.ProcessOptionsExtra
 }
 
 func (n *node) unregisterProcess(p *process, reason error) {
+	lib.VerifPoint("unreg.delete", p)
 	n.processes.Delete(p.pid)
 	n.RouteTerminatePID(p.pid, reason)
 
